@@ -22,30 +22,29 @@ fn fast_pow2f_generic(x: f32) -> f32 {
 }
 
 #[cfg(target_arch = "x86_64")]
+#[target_feature(enable = "sse4.1")]
 #[inline]
-fn fast_pow2f_x86_64_sse2(x: std::arch::x86_64::__m128) -> std::arch::x86_64::__m128 {
+unsafe fn fast_pow2f_x86_64_sse2(x: std::arch::x86_64::__m128) -> std::arch::x86_64::__m128 {
     use std::arch::x86_64::*;
 
-    unsafe {
-        let x_floor = _mm_floor_ps(x);
-        let exp = _mm_add_epi32(_mm_cvtps_epi32(x_floor), _mm_set1_epi32(127));
-        let exp = _mm_castsi128_ps(_mm_slli_epi32::<23>(exp));
-        let frac = _mm_sub_ps(x, x_floor);
+    let x_floor = _mm_floor_ps(x);
+    let exp = _mm_add_epi32(_mm_cvtps_epi32(x_floor), _mm_set1_epi32(127));
+    let exp = _mm_castsi128_ps(_mm_slli_epi32::<23>(exp));
+    let frac = _mm_sub_ps(x, x_floor);
 
-        let num = _mm_add_ps(_mm_set1_ps(POW2F_NUMER_COEFFS[0]), frac);
-        let num = _mm_add_ps(_mm_set1_ps(POW2F_NUMER_COEFFS[1]), _mm_mul_ps(frac, num));
-        let num = _mm_add_ps(_mm_set1_ps(POW2F_NUMER_COEFFS[2]), _mm_mul_ps(frac, num));
-        let num = _mm_mul_ps(exp, num);
+    let num = _mm_add_ps(_mm_set1_ps(POW2F_NUMER_COEFFS[0]), frac);
+    let num = _mm_add_ps(_mm_set1_ps(POW2F_NUMER_COEFFS[1]), _mm_mul_ps(frac, num));
+    let num = _mm_add_ps(_mm_set1_ps(POW2F_NUMER_COEFFS[2]), _mm_mul_ps(frac, num));
+    let num = _mm_mul_ps(exp, num);
 
-        let den = _mm_add_ps(
-            _mm_set1_ps(POW2F_DENOM_COEFFS[1]),
-            _mm_mul_ps(frac, _mm_set1_ps(POW2F_DENOM_COEFFS[0])),
-        );
-        let den = _mm_add_ps(_mm_set1_ps(POW2F_DENOM_COEFFS[2]), _mm_mul_ps(frac, den));
-        let den = _mm_add_ps(_mm_set1_ps(POW2F_DENOM_COEFFS[3]), _mm_mul_ps(frac, den));
+    let den = _mm_add_ps(
+        _mm_set1_ps(POW2F_DENOM_COEFFS[1]),
+        _mm_mul_ps(frac, _mm_set1_ps(POW2F_DENOM_COEFFS[0])),
+    );
+    let den = _mm_add_ps(_mm_set1_ps(POW2F_DENOM_COEFFS[2]), _mm_mul_ps(frac, den));
+    let den = _mm_add_ps(_mm_set1_ps(POW2F_DENOM_COEFFS[3]), _mm_mul_ps(frac, den));
 
-        _mm_div_ps(num, den)
-    }
+    _mm_div_ps(num, den)
 }
 
 #[cfg(target_arch = "x86_64")]
@@ -244,8 +243,9 @@ pub fn fast_powf_generic(base: f32, exp: f32) -> f32 {
 }
 
 #[cfg(target_arch = "x86_64")]
+#[target_feature(enable = "sse4.1")]
 #[inline]
-pub fn fast_powf_x86_64_sse2(
+pub unsafe fn fast_powf_x86_64_sse2(
     base: std::arch::x86_64::__m128,
     exp: std::arch::x86_64::__m128,
 ) -> std::arch::x86_64::__m128 {
